@@ -18,7 +18,7 @@ from hypothesis import strategies as st
 
 from vlib.core import Violation, Outcome, HarnessError, import_odl
 from vlib.ref import partition as ref
-from vlib.ref.partition import Axis, Invalid, LD, EPS
+from vlib.ref.partition import Axis, Invalid, Unspecified, LD, EPS
 
 odl = import_odl()
 
@@ -41,7 +41,7 @@ LEVEL_NOTE = ('Trusted: NumPy (long double), Hypothesis, vlib/ref/partition.py '
               'with cell sides >= 0.05 so that the isclose-based boundary-node '
               'detection of the library is unambiguous.')
 DESIGN_REF = 'DESIGN.md section 5, C14'
-BUDGET = {'quick': 6000, 'thorough': 100000}
+BUDGET = {'quick': 4000, 'thorough': 40000}
 TOLERANCES = {
     'limits_given': 'exactly the given numbers (bitwise)',
     'limits_completed': '|got-ref| <= 8*eps*scale (exact on the dyadic '
@@ -76,6 +76,12 @@ ASSUMPTIONS = [
     'un-stepped slice (documented by partition[::2])',
     'index(p) for p outside the interval: an exception or the adjacent outer '
     'cell is accepted',
+    'a negative-step slice that selects exactly one cell (nothing to '
+    'reverse) and the empty index list p[[]] (explicit branch returning the '
+    '0-d partition) are unspecified: not generated / not judged',
+    'the bitwise midpoint clause follows the documented formula '
+    '(x[i]+x[i+1])/2; a reformulation a+(b-a)/2 would differ in the last bit '
+    'and be reported',
 ]
 RULE = ('Hypothesis draws a construction route and an abstract operation '
         'sequence; non-trivial = (>= 2 axes or a boundary node or a one-point '
@@ -1003,6 +1009,9 @@ def run_case(desc):
                 new_model = ref.getitem(model, idx)
             except Invalid as e:
                 invalid = str(e)
+            except Unspecified:
+                strata.append('unspecified:negative-step-single-cell')
+                continue
 
             def call():
                 return part[idx]
